@@ -342,6 +342,10 @@ def objscan(chk):
         chk.analysis_broken("objscan: only %d units compiled" % ncomp)
 
 
+META_EXTRA = 'Pointer-formation obligations and counting-loop reachability extend BOUND.'
+META = (META[0] + " " + META_EXTRA, META[1])
+
+
 def run(chk, tier):
     db = D.load("plain")
     with open(c05.SPEC) as fh:
